@@ -314,7 +314,11 @@ the context is the same bounded, reaping exit. -/
 theorem c16_client_settings_irrelevant (s s' : ClientSettings) (d : Design) (os : OS) (p : ExitPath) (c : ChildSpec)
     (l : Load) : leaveWith s d os p c l = leaveWith s' d os p c l := rfl
 
-example : leaveWith ⟨some "2025-06-18", true⟩ Design.sound ⟨5, true⟩ .normal (childSpec .flood .before) ⟨640000, 131072⟩
+example : leaveWith { version := none, readerWriting := false, pendingStreams := 3, readerEnded := true } Design.sound
+      ⟨5, true⟩ .outerCancel (childSpec .flood .inflight) ⟨0, 131072⟩
+    = leave Design.sound ⟨5, true⟩ .outerCancel (childSpec .flood .inflight) ⟨0, 131072⟩ := rfl
+
+example : leaveWith { version := some "2025-06-18", readerWriting := true } Design.sound ⟨5, true⟩ .normal (childSpec .flood .before) ⟨640000, 131072⟩
     = leave Design.sound ⟨5, true⟩ .normal (childSpec .flood .before) ⟨640000, 131072⟩ := rfl
 
 /-- **Concurrent clients do not answer for one another.**  With several clients alive at once, what client `k`'s
